@@ -112,7 +112,7 @@ class ECP5PLL(LiteXModule):
                             assert self.nclkouts < self.nclkouts_max
                             config["clkfb"] = self.nclkouts
                             self.clkouts[self.nclkouts] = (Signal(), 0, 0, 0, 0)
-                            config[f"clko{self.nclkouts}_div"] = int((vco_freq*clki_div)/(self.clkin_freq*clkfb_div))
+                            config[f"clko{self.nclkouts}_div"] = clkofb_div
                         config["vco"]       = vco_freq
                         config["clkfb_div"] = clkfb_div
                         compute_config_log(self.logger, config)
